@@ -207,10 +207,15 @@ mod imp {
     for q in queries(dim) {
       // ---- vector-only ----------------------------------------------------------------------
       for (filter, vfilter, boost) in [(false, false, None), (true, false, None), (false, true, None), (false, false, Some(2.0f32))] {
-        for (k, limit) in [(n.max(1), n.max(1)), (1, n.max(1)), (2, 1), (n.max(1), 1)] {
+        // ef_search: the ANN beam width is a tuning knob; with fewer vectors per segment than the
+        // neighbour limit the answer must stay exact whatever its value
+        for ((k, limit), ef) in [(n.max(1), n.max(1)), (1, n.max(1)), (2, 1), (n.max(1), 1)].into_iter().flat_map(|kl| [None, Some(1usize), Some(2)].into_iter().map(move |e| (kl, e))) {
           let mut node = json!({"type": "vector", "field": "v", "vector": q, "k": k, "alpha": 0.0});
           if let Some(b) = boost {
             node["boost"] = json!(b);
+          }
+          if let Some(e) = ef {
+            node["ef_search"] = json!(e);
           }
           let mut r = json!({"query": node, "limit": limit, "execution": "wand"});
           if filter {
